@@ -122,7 +122,7 @@ inline void rmTree(const std::string& path) {
   }
 }
 inline void cleanChildScratch(pid_t pid) {
-  for (const char* pre : {"/dev/shm/c14.", "/dev/shm/c19s.", "/dev/shm/c20-kmsg."}) rmTree(std::string(pre) + std::to_string(pid));
+  for (const char* pre : {"/dev/shm/c14.", "/dev/shm/c19s.", "/dev/shm/c19p.", "/dev/shm/c20-kmsg."}) rmTree(std::string(pre) + std::to_string(pid));
 }
 inline double nowSec() {
   struct timespec ts;
